@@ -18,7 +18,9 @@ export function* generate({ tier, seed }) {
   const keep = tier === 'quick' ? { C01: 0.12, C02: 0.05, C03: 0.25, C04: 0.12, C05: 0.3, C11: 0.12, C06: 0.08, C10: 0.04 } : { C01: 0.15, C02: 0.05, C03: 1, C04: 0.5, C05: 1, C11: 0.15, C06: 0.2, C10: 0.15 };
   for (const [name, mod] of Object.entries(SOURCES)) {
     for (const g of mod.generate({ tier, seed })) {
-      if (rng() > keep[name]) continue;
+      // short child sequences of C02 are kept in full (single children are where optimize takes shortcuts)
+      const shortC02 = name === 'C02' && g.spec.thunks[0].feature && String(g.spec.thunks[0].feature).startsWith('child|') && String(g.spec.thunks[0].feature).split('|')[2].split(',').length <= 2;
+      if (!shortC02 && rng() > keep[name]) continue;
       if (name === 'C06') {
         if (g.spec.thunk !== 't0') continue;
         g.spec = { env: g.spec.env, thunks: [{ name: 't0' }] };
